@@ -532,7 +532,7 @@ class CallMixin:
                 path.prefix, path.pos, path.trace = pre, 0, []
                 local_pending = []
                 path.ex.pending = local_pending
-                del path.pc[base_pc:]
+                path.truncate(base_pc)
                 path.solver.push()
                 try:
                     if assume is not None:
@@ -552,9 +552,9 @@ class CallMixin:
                     raise Unsupported("too many sub-paths in pure evaluation")
         finally:
             path.prefix, path.pos, path.trace, path.ex.pending = saved[0], saved[1], saved[2], saved[3]
-            del path.pc[base_pc:]
+            path.truncate(base_pc)
         if not results:
-            raise Unsupported("pure sub-evaluation has no feasible path")
+            raise NoFeasiblePath()
         return self.merge(results)
 
     def merge(self, results):
@@ -593,6 +593,10 @@ class CallMixin:
             c = z3.And(*cond) if cond else z3.BoolVal(True)
             t = z3.If(c, to_term(v, k), t)
         return mk(k, t) if k != "float" else Sym("float", t)
+
+
+class NoFeasiblePath(Exception):
+    """The assumption of a pure sub-evaluation is unsatisfiable under the path condition."""
 
 
 class _Gen:
